@@ -32,5 +32,11 @@ Literals(base) ==
                                 Obj(<<KV("type", Int("3")), KV("camelCase", Str("hi")), KV("loop", Null)>>)),
                             Lit("{ loop: true }",
                                 Obj(<<KV("type", Null), KV("camelCase", Null), KV("loop", Sc("bool", "true"))>>))}
-Bases == {"Int", "Float", "String", "Boolean", "ID", "Message", "Awkward"}
+    \* a recursive input type (its recursive member is boxed in the generated struct)
+    [] base = "Tree"    -> {Lit("{ v: 1 }", Obj(<<KV("v", Int("1")), KV("next", Null)>>)),
+                            Lit("{ v: 1, next: { v: 2 } }",
+                                Obj(<<KV("v", Int("1")), KV("next", Obj(<<KV("v", Int("2")), KV("next", Null)>>))>>))}
+    \* an input type whose name is not UpperCamelCase (renamed under normalization = rust)
+    [] base = "snake_in" -> {Lit("{ a: 1 }", Obj(<<KV("a", Int("1"))>>))}
+Bases == {"Int", "Float", "String", "Boolean", "ID", "Message", "Awkward", "Tree", "snake_in"}
 =============================================================================
